@@ -44,7 +44,7 @@ CLASSES = [
     "trunc", "trunc_parses", "subst_breaks_json", "subst_parses_different_value", "subst_parses_same_value", "invalid_utf8",
     "deleted", "swapped", "type_change", "reformat_not_damage", "nondict_json", "duplicate_key", "renamed_dir", "with_cache",
     "without_cache", "partial_cache", "multi_job", "repair_mixed_repairable_and_not", "rename_onto_cached_id",
-    "repair_all_expected", "repair_raises_for_unrepairable", "nondict_in_matching_dir",
+    "repair_all_expected", "repair_raises_for_unrepairable", "nondict_in_matching_dir", "bare_job",
 ]
 ASSUMPTIONS = [
     "a job is damaged iff its state point file is absent, not UTF-8, not JSON, not a JSON object, or does not hash to the directory name",
@@ -160,10 +160,10 @@ def _dedupe(jobs):
     return out
 
 
-def build(ctx, jobs, cache, late, ghost):
+def build(ctx, jobs, cache, late, ghost, bare=()):
     import signac
 
-    key = (ctx.scratch, jdump([jobs, cache, late, ghost]))
+    key = (ctx.scratch, jdump([jobs, cache, late, ghost, sorted(bare)]))
     b = _BUILT.get(key)
     if b is not None and os.path.isdir(b.root):
         _BUILT.move_to_end(key)
@@ -179,6 +179,8 @@ def build(ctx, jobs, cache, late, ghost):
         job = p.open_job(json.loads(json.dumps(jobs[i]))).init()
         if job.id != b.ids[i]:
             raise HarnessError("id oracle disagrees with signac for %r" % (jobs[i],))
+        if i in bare:
+            return  # a bare job: its directory holds nothing but the state point file
         job.doc.update({"job": i, "v": [1, 2.5, "x"]})
         fsutil.write_file(job.fn("data.bin"), b"\x00\x01payload-%d\n" % i)
         fsutil.write_file(job.fn("sub/more.txt"), b"more %d" % i)
@@ -374,7 +376,10 @@ def run_case(case, ctx):
     cache = bool(case.get("cache"))
     late = sorted({int(i) % n for i in case.get("late", []) if isinstance(i, int)}) if cache else []
     ghost = bool(case.get("ghost")) and cache
-    b = build(ctx, jobs, cache, late, ghost)
+    bare = sorted({int(i) % n for i in case.get("bare", []) if isinstance(i, int)})
+    if bare:
+        cl.add("bare_job")
+    b = build(ctx, jobs, cache, late, ghost, bare)
     restore(b)
     ws = b.ws
     cl.add("with_cache" if cache else "without_cache")
@@ -674,6 +679,8 @@ def enumeration():
         for cache in (False, True):
             for f in faults:
                 yield {"jobs": [sp, BYSTANDER], "cache": cache, "late": [], "ghost": False, "faults": [f]}
+                if f.get("kind") in ("delete", "rename", "plant") or (f.get("kind") == "trunc" and f.get("at") == 0):
+                    yield {"jobs": [sp, BYSTANDER], "cache": cache, "late": [], "ghost": False, "faults": [f], "bare": [0]}
 
 
 BYTES_POOL = [c[1].decode("latin-1") for c in BYTE_CLASSES] + ["3", "z", "E", "0", "1", "9", "a", "u", "+", "\n", "\x7f", "\xc3", "\xe9"]
@@ -710,7 +717,8 @@ def cases(draw):
         if f.get("to") == "ghost" and not ghost:
             f["to"] = "fresh"
         faults.append(f)
-    return {"jobs": jobs, "cache": cache, "late": sorted(late), "ghost": ghost, "faults": faults}
+    bare = [i for i in range(len(jobs)) if draw(st.integers(0, 3)) == 0]
+    return {"jobs": jobs, "cache": cache, "late": sorted(late), "ghost": ghost, "faults": faults, "bare": bare}
 
 
 CONSTRUCTED = [
